@@ -29,6 +29,7 @@ type recEvent struct {
 	Err   string           `json:"err"`
 	Objs  []interp.Obj     `json:"objs"`
 	RT    []interp.Reparse `json:"rt"`
+	Ret   []proj.Text      `json:"ret"` // spdet: the detached copy after the operation, flattened (name, value, name, ...)
 }
 
 var interesting = []rune{'/', '\\', ':', '@', '?', '#', '.', '%', '2', 'e', 'E', '[', ']', ' ', '\t', '\n', '|', 'C', 'a', 'Z', '0', '1', '9', 'x', '-', '+', '&', '=',
@@ -203,6 +204,9 @@ func cmdRecord(args []string) int {
 			if e.RT == nil {
 				e.RT = []interp.Reparse{}
 			}
+			if e.Ret == nil {
+				e.Ret = []proj.Text{}
+			}
 			if e.A == nil {
 				e.A = proj.Text{}
 			}
@@ -219,8 +223,8 @@ func cmdRecord(args []string) int {
 		}
 		emit(recEvent{Op: "reset", Objs: []interp.Obj{{}, {}, {}}})
 		do := func(st interp.Step) bool {
-			fail, _, errc := m.Do(&st)
-			e := recEvent{Op: st.Op, H: st.H, Hb: st.Hb, N: st.N, A: st.A, B: st.B, Bs: st.Bs, Fail: fail, Objs: m.Observe(true)}
+			fail, ret, errc := m.Do(&st)
+			e := recEvent{Op: st.Op, H: st.H, Hb: st.Hb, N: st.N, A: st.A, B: st.B, Bs: st.Bs, Fail: fail, Objs: m.Observe(true), Ret: ret}
 			if errc == "nilnil" || len(errc) >= 5 && errc[:5] == "panic" {
 				if errc != "nilnil" {
 					errc = "panic"
@@ -280,7 +284,19 @@ func cmdRecord(args []string) int {
 					break
 				}
 			}
-			switch c := r.Intn(10); {
+			switch c := r.Intn(12); {
+			case c == 10: // SetSearchParams with a fresh value / a detached copy / a live list (possibly the URL's own)
+				how := []string{"fresh0", "fresh", "copy", "live"}[r.Intn(4)]
+				st := interp.Step{Op: "setsp", H: h, N: how, A: proj.FromGo(smallValues[r.Intn(len(smallValues))]), B: proj.FromGo(smallValues[r.Intn(len(smallValues))])}
+				if how == "copy" || how == "live" {
+					st.Hb = live[r.Intn(len(live))]
+				}
+				if how == "fresh0" || how == "live" {
+					st.A, st.B = proj.Text{}, proj.Text{}
+				}
+				do(st)
+			case c == 11: // a detached copy of the list is mutated and dropped
+				do(interp.Step{Op: "spdet", H: h, N: spOpNames[r.Intn(len(spOpNames))], A: proj.FromGo(smallValues[r.Intn(len(smallValues))]), B: proj.FromGo(smallValues[r.Intn(len(smallValues))])})
 			case c < 5:
 				do(interp.Step{Op: "set", H: h, N: setterNames[r.Intn(len(setterNames))], A: val()})
 			case c < 7:
